@@ -158,6 +158,13 @@ QUICK_HEADS = [("1", "n", "1"), ("m", "2*n", "2"), ("1", "n-1", "3"), ("n", "1",
                ("7", "m", "-2"), ("1+m", "n", "2")]
 
 
+THOROUGH_BODIES = HEAD_BODIES + ["inc", "reduce", "chain", "ifpas", "tmp"]
+THOROUGH_HEADS = QUICK_HEADS + [("1", "n", "2"), ("m", "n", "3"), ("2*m-1", "n+m", "2"),
+                                ("n-3", "n", "1"), ("n", "m", "-3"), ("2*n", "1", "-2"),
+                                ("n-1", "1+m", "-1"), ("n+m", "m-1+2", "-2"),
+                                ("1", "n", "m"), ("n", "1", "-m")]
+
+
 def _loop(h, nm):
     return ("L|%s,%s,%s|%s" % (h + (nm,)),
             [head_text(h)] + ["  " + l for l in BODIES[nm]] + ["end do"])
@@ -173,7 +180,9 @@ def kernels(tier):
         pairs = [(h, HEAD_BODIES[k % len(HEAD_BODIES)]) for k, h in enumerate(heads)]
         pairs += [(h, nm) for nm in names for h in QUICK_HEADS]
     else:
-        pairs = [(h, nm) for h in heads for nm in names]
+        # every head with eight bodies, every body with sixteen heads
+        pairs = [(h, nm) for h in heads for nm in THOROUGH_BODIES]
+        pairs += [(h, nm) for nm in names for h in THOROUGH_HEADS]
     for h, nm in pairs:
         if (h, nm) not in seen:
             seen.add((h, nm))
